@@ -179,6 +179,21 @@ def jobs(sc):
                     f = f.reshape(N, K) if K > 1 else f.reshape(N)
                     i += 1
                     yield ("B", lays[i % len(lays)], f, wv[i % len(wv)], None)
+    # S: numerically hostile data (added after a seeded one-pass variance and an isclose() weight guard were missed):
+    #    a large offset with a small spread (epoch seconds differing by under a minute), and weights on tiny / huge scales
+    big = 1.7e9
+    offs = [(0.0, 30.0, 59.0), (0.0, 1.0, 2.5, 59.0), (7.0, 7.0, 7.0, 59.0, 0.0), (0.0, 59.0), (12.0, 0.0, 59.0, 30.0, 45.0, 3.0)]
+    wsc = [None, 2.0 ** -33, 1e-10, 2.0 ** 40]
+    wbase = np.array([1.0, 2.0, 0.5, 1.0, 3.0, 2.0])
+    for o in offs:
+        N = len(o)
+        lays = [([], ()), ([np.zeros(N, dtype=np.int64)], (1,)), ([np.array(([0, 1, 0, 0, 1, 0])[:N], dtype=np.int64)], (2,))]
+        for base in (big + np.array(o), np.array(o)):
+            for sc_ in wsc:
+                w = None if sc_ is None else sc_ * wbase[:N]
+                for L in lays:
+                    yield ("B", L, base.copy(), w, None)
+                    yield ("B", L, np.stack([base, base[::-1] * 1.0 + 1.0], axis=1), w, None)
     # T: min / max of int facts with validity and of datetime64 facts
     dates = np.array(["2020-01-01", "2020-01-03", "2019-06-30", "NaT"], dtype="datetime64[D]")
     ints = (-3, 0, 1, 7)
